@@ -636,35 +636,41 @@ type HarnessRun struct {
 	knownActive     map[string]bool
 	groups          map[string]bool // assertion label prefixes to check (nil = all)
 
-	mu           sync.Mutex
-	queue        []workItem
-	active       int
-	cond         *sync.Cond
-	paths        int
-	completed    int
-	infeasible   int
-	panicked     int
-	aborted      map[string]int
-	abortMsgs    map[string]int
-	branchTotal  int
-	feasUnknown  int
-	modelHits    int
-	searchHits   int
-	labels       map[string]*labelStat
-	covers       map[string]*Scenario
-	coverHits    map[string]int
-	violations   []*Scenario
-	knownHits    map[string]*Scenario
-	entered      map[string]int
-	intrinsics   map[string]int
-	mapRanges    map[string]int
-	samplePicks  []map[string]int
-	shapes       map[string]int
-	assumptions  map[string]int
-	params       map[string]int
-	start        time.Time
-	stopped      bool
-	pathLimitHit bool
+	mu            sync.Mutex
+	queue         []workItem
+	active        int
+	cond          *sync.Cond
+	paths         int
+	completed     int
+	infeasible    int
+	panicked      int
+	aborted       map[string]int
+	abortMsgs     map[string]int
+	branchTotal   int
+	feasUnknown   int
+	modelHits     int
+	searchHits    int
+	fuzzHits      int
+	violCount     int
+	failFastAfter int
+	failFast      bool
+	fuzzBudget    int
+	seed          int
+	labels        map[string]*labelStat
+	covers        map[string]*Scenario
+	coverHits     map[string]int
+	violations    []*Scenario
+	knownHits     map[string]*Scenario
+	entered       map[string]int
+	intrinsics    map[string]int
+	mapRanges     map[string]int
+	samplePicks   []map[string]int
+	shapes        map[string]int
+	assumptions   map[string]int
+	params        map[string]int
+	start         time.Time
+	stopped       bool
+	pathLimitHit  bool
 }
 
 func (h *HarnessRun) noteFeasUnknown() {
@@ -758,12 +764,33 @@ func (e *Exec) doAssert(label string, c *Term) {
 		r = "sat"
 		viol = e.scenarioFromModel("violation", label, e.model)
 	} else {
-		r = e.checkWith(q, h.assertTimeoutMs)
+		h.mu.Lock()
+		tmo := h.assertTimeoutMs
+		hard := false
+		if ls := h.labels[label]; ls != nil && ls.inconclusive >= 3 {
+			tmo, hard = 5000, true
+		}
+		h.mu.Unlock()
+		r = e.checkWith(q, tmo)
 		if r == "sat" {
 			viol = e.currentScenario("violation", label)
 		}
 		e.popModel()
 		if r == "unknown" {
+			// the solver could not decide: look for a concrete counterexample by a random walk from the path's model
+			if e.model == nil {
+				e.ensureModel()
+			}
+			if fm := e.fuzzViolation(q, h.fuzzBudget); fm != nil {
+				r = "sat"
+				viol = e.scenarioFromModel("violation", label, newModel(fm))
+				viol.Solver = "concrete-search"
+				h.mu.Lock()
+				h.fuzzHits++
+				h.mu.Unlock()
+			}
+		}
+		if r == "unknown" && !hard {
 			r = e.portfolio(q)
 		}
 	}
@@ -792,6 +819,12 @@ func (e *Exec) doAssert(label string, c *Term) {
 		s.violated++
 		if len(h.violations) < 200 {
 			h.violations = append(h.violations, viol)
+		}
+		// fail fast: a handful of counterexamples is enough to decide the check
+		h.violCount++
+		if h.violCount >= h.failFastAfter && h.failFastAfter > 0 {
+			h.stopped = true
+			h.failFast = true
 		}
 	default:
 		s.inconclusive++
